@@ -161,7 +161,11 @@ func check(repo, prop, tier, fnKey string, keep, verbose, noEvidence bool) int {
 		}
 		fns := P.Funcs[key]
 		if len(fns) == 0 {
-			missing = append(missing, key+" (no such function)")
+			// the function the contract was written on is gone: everything proved about it is void
+			name := "exists:" + key
+			v.obls[name] = &Obligation{Name: name, Kind: "exists", Func: key, Clause: "the function under contract exists",
+				Result: &ObResult{Answer: "function-missing", Backend: "loader", Outputs: map[string]string{"loader": "no function " + key + " in the current tree; its contract (" + filepath.Base(c.File) + ") can no longer be discharged"}}}
+			v.order = append(v.order, name)
 			continue
 		}
 		for i, fn := range fns {
